@@ -8,7 +8,13 @@ Driver handlers for C06.
     dfs_dist <desc> <sources> [family]  =>  <DfsDist items>                     items `[v depth]`
     dfs_pred <desc> <sources> [family]  =>  <DfsPred items> <predecessors()>    items `[pred v]`, vector of `none | id`
 
-each output is a list or the atom `panic`.
+    dfs_repoll <desc> <sources> [family] =>  <Dfs polls> <DfsDist polls> <DfsPred polls>
+
+each output is a list or the atom `panic`.  A fourth argument of the first three ops (`vec`,
+`filter`, `flatten`, `takewhile`, `mapwhile`) only says how the harness passed the sources; the
+model does not depend on it.  `dfs_repoll` polls on after a `None` (items or `none`, trailing
+`none`s trimmed); correspondence only — C06 says nothing about re-polling.  `<desc>` is a `GDesc` or one of the two compact
+descriptions of large digraphs (`compact?`), which are expanded to a `GDesc` first.
 
 Verdict (per op, i.e. per iterator):
 * the property oracle (`Spec/Dfs.lean` + the naive reachability oracle `reachSetB` of `Spec/Graph.lean`) judges the
@@ -74,6 +80,110 @@ inductive Kind where
   | iter | dist | pred
   deriving BEq
 
+/-- Parse the observation: vertex sequence, optional depths / preds, optional tree, items as
+values. Outer `none` = malformed, inner `none` = the call panicked. -/
+def parseObs (kind : Kind) (observed : List V) :
+    Option (Option (List Nat × Option (List Nat) × Option (List (Option Nat)) × Option (List (Option Nat)) × List V)) :=
+    match kind, observed with
+    | .iter, [a] => do
+      let r ← optPanic (V.listOf? V.nat?) a
+      pure (r.map (fun xs => (xs, none, none, none, a.list?.getD [])))
+    | .dist, [a] => do
+      let r ← optPanic (V.listOf? (V.pair? V.nat? V.nat?)) a
+      pure (r.map (fun ds => (ds.map (·.1), some (ds.map (·.2)), none, none, a.list?.getD [])))
+    | .pred, [a, t] => do
+      let r ← optPanic (V.listOf? (V.pair? (V.opt? V.nat?) V.nat?)) a
+      let rt ← optPanic (V.listOf? (V.opt? V.nat?)) t
+      pure (match r, rt with
+        | some ps, some tree => some (ps.map (·.2), none, some (ps.map (·.1)), some tree, a.list?.getD [])
+        | _, _ => none)
+    -- the whole evaluation panicked (building the digraph): `=> panic`
+    | .pred, [a] => if a == V.a "panic" then some none else none
+    | _, _ => none
+
+/-- Out-forest test for the light path: every vertex has at most one in-arc, the sources none,
+sources distinct and in range, arcs in range. Returns the parent array. -/
+def forestParents (g : Graph) (S : List Nat) : Option (Array (Option Nat)) := Id.run do
+  let mut par : Array (Option Nat) := Array.replicate g.n none
+  for u in [0:g.n] do
+    for v in g.out u do
+      if v ≥ g.n || v == u || par[v]!.isSome then return none
+      par := par.set! v (some u)
+  let mut isSrc : Array Bool := Array.replicate g.n false
+  for s in S do
+    if s ≥ g.n || isSrc[s]! || par[s]!.isSome then return none
+    isSrc := isSrc.set! s true
+  return some par
+
+/-- Array-based oracle for OUT-FORESTS whose sources are roots (every vertex is pushed at most once,
+so no stale entry exists and the full property must hold). Same rules as `Spec/Dfs.lean`, where
+"`u` has an unyielded out-neighbour" becomes a counter because every vertex has a single parent.
+Used alone for orders above 4096 (the list-based model and `annotate` are quadratic), and as a
+self-check against `annotate` on every small forest case. `none` = accepted. -/
+def forestJudge (g : Graph) (S : List Nat) (par : Array (Option Nat)) (xs : List Nat)
+    (depths : Option (List Nat)) (preds : Option (List (Option Nat))) (tree : Option (List (Option Nat))) :
+    Option String := Id.run do
+  let n := g.n
+  let reach := (reachSetB g S).toArray
+  let xsA := xs.toArray
+  let dA := (depths.getD []).toArray
+  let pA := (preds.getD []).toArray
+  let mut seen : Array Bool := Array.replicate n false
+  let mut depth : Array Nat := Array.replicate n 0
+  let mut remaining : Array Nat := (Array.range n).map (fun u => (g.out u).length)
+  let mut path : List Nat := []
+  let mut opened : Nat := 0   -- unyielded out-neighbours of yielded vertices
+  for i in [0:xsA.size] do
+    let x := xsA[i]!
+    if x ≥ n then return some s!"item {i+1}: vertex {x} out of range"
+    if !reach[x]! then return some s!"vertex {x} yielded but not reachable"
+    if seen[x]! then return some s!"vertex {x} yielded twice"
+    let rem := remaining
+    path := path.dropWhile (fun d => rem[d]! == 0)
+    let (wantP, wantD) : Option Nat × Nat ← match path with
+      | [] =>
+        if !S.contains x || opened != 0 then
+          return some s!"item {i+1} (vertex {x}) is not a valid depth-first step (not a permitted root)"
+        pure (none, 0)
+      | p :: _ =>
+        if par[x]! != some p then
+          return some s!"item {i+1} (vertex {x}) is not a valid depth-first step (deepest open vertex is {p})"
+        pure (some p, depth[p]! + 1)
+    if depths.isSome && dA[i]? != some wantD then return some s!"item {i+1} (vertex {x}): depth {wantD} expected"
+    if preds.isSome && pA[i]? != some wantP then return some s!"item {i+1} (vertex {x}): predecessor {wantP} expected"
+    seen := seen.set! x true
+    depth := depth.set! x wantD
+    opened := opened + (g.out x).length
+    if let some p := wantP then
+      remaining := remaining.set! p (remaining[p]! - 1)
+      opened := opened - 1
+    path := x :: path
+  let nReach := reach.foldl (fun c b => if b then c + 1 else c) 0
+  if nReach != xsA.size then
+    return some s!"{nReach - xsA.size} reachable vertices never yielded ({xsA.size} yielded)"
+  if let some t := tree then
+    let tA := t.toArray
+    if tA.size != n then return some "predecessors() has the wrong length"
+    for v in [0:n] do
+      if tA[v]! != (if seen[v]! then par[v]! else none) then
+        return some s!"predecessors()[{v}] is not the search-tree parent"
+  return none
+
+/-- Orders above 4096: oracle only (no model, hence never MISMATCH / KNOWN), out-forests only. -/
+def runLight (kind : Kind) (d : GDesc) (S : List Nat) (fam : String) (observed : List V) : Option Verdict := do
+  let g := d.graph
+  let par ← forestParents g S
+  let parsed ← parseObs kind observed
+  let tags := [ "repr-" ++ d.repr, sizeTag g.n, "fam-" ++ (fam.splitOn ":").headD "none", "oracle-only" ]
+  match parsed with
+  | none =>
+    pure { status := "PROPFAIL", nontrivial := true, tags := "res-panic" :: tags,
+           detail := "the search panicked on a digraph with in-range arcs and in-range sources" }
+  | some (xs, depths, preds, tree, _) =>
+    match forestJudge g S par xs depths preds tree with
+    | none => pure { status := "OK", nontrivial := true, tags := "res-complete" :: tags }
+    | some w => pure { status := "PROPFAIL", nontrivial := true, tags := "res-bad" :: tags, detail := w }
+
 /-- One iterator of one case. `observed` is what the real code returned. -/
 def run (kind : Kind) (d : GDesc) (S : List Nat) (fam : String) (observed : List V) : Option Verdict := do
   let g := d.graph
@@ -95,30 +205,13 @@ def run (kind : Kind) (d : GDesc) (S : List Nat) (fam : String) (observed : List
   let applicable := S.all (· < g.n) && distinct && d.arcs.all (fun a => a.1 < g.n && a.2 < g.n)
   let staleTag := if mEnd == .stale then "stale-pop" else if mEnd == .done then "no-stale-pop" else "model-panic"
   let tags := [ "repr-" ++ d.repr, sizeTag g.n, "fam-" ++ (fam.splitOn ":").headD "none",
+                "src-as-" ++ ((fam.splitOn ":")[2]?).getD "vec",
                 (if S.length == 0 then "src0" else if S.length == 1 then "src1" else "src>1"), staleTag ]
   if !applicable then
     -- outside the property (C13 owns out-of-range arguments): correspondence only
     pure (classify observed model none (nt := false) ("not-applicable" :: tags))
   else
-  -- parse the observation: vertex sequence, optional depths / preds, optional tree, items as values
-  let parsed : Option (Option (List Nat × Option (List Nat) × Option (List (Option Nat)) × Option (List (Option Nat)) × List V)) :=
-    match kind, observed with
-    | .iter, [a] => do
-      let r ← optPanic (V.listOf? V.nat?) a
-      pure (r.map (fun xs => (xs, none, none, none, a.list?.getD [])))
-    | .dist, [a] => do
-      let r ← optPanic (V.listOf? (V.pair? V.nat? V.nat?)) a
-      pure (r.map (fun ds => (ds.map (·.1), some (ds.map (·.2)), none, none, a.list?.getD [])))
-    | .pred, [a, t] => do
-      let r ← optPanic (V.listOf? (V.pair? (V.opt? V.nat?) V.nat?)) a
-      let rt ← optPanic (V.listOf? (V.opt? V.nat?)) t
-      pure (match r, rt with
-        | some ps, some tree => some (ps.map (·.2), none, some (ps.map (·.1)), some tree, a.list?.getD [])
-        | _, _ => none)
-    -- the whole evaluation panicked (building the digraph): `=> panic`
-    | .pred, [a] => if a == V.a "panic" then some none else none
-    | _, _ => none
-  let parsed ← parsed
+  let parsed ← parseObs kind observed
   match parsed with
   | none =>
     pure { status := "PROPFAIL", nontrivial := true, tags := "res-panic" :: tags,
@@ -132,6 +225,13 @@ def run (kind : Kind) (d : GDesc) (S : List Nat) (fam : String) (observed : List
       | some ann, some tree =>
         if tree == forestOf g.n ann then .ok else .bad "predecessors() is not the forest of the DfsPred search"
       | _, _ => .ok
+    -- self-check of the Array-based forest oracle against the specification's `annotate`
+    let (agree, tags) : Bool × List String := match forestParents g S with
+      | none => (true, tags)
+      | some par =>
+        let accepted := match j, jt with | .ok, .ok => true | _, _ => false
+        ((forestJudge g S par xs depths preds tree).isNone == accepted, "forest-xcheck" :: tags)
+    if !agree then none else
     match j, jt with
     | .bad w, _ => pure { status := "PROPFAIL", nontrivial := nt, tags := "res-bad" :: tags, detail := w }
     | _, .bad w => pure { status := "PROPFAIL", nontrivial := nt, tags := "res-bad" :: tags, detail := w }
@@ -146,20 +246,74 @@ def run (kind : Kind) (d : GDesc) (S : List Nat) (fam : String) (observed : List
       if sig then pure (known "early-stop-on-stale-pop" w nt ("res-incomplete" :: tags))
       else pure { status := "PROPFAIL", nontrivial := nt, tags := "res-incomplete" :: tags, detail := w }
 
-def handler (kind : Kind) : Handler := fun _ args obs => do
+/-- Compact descriptions (`ops/c06.rs`): `[k repr n a b m t rm]` = arc `u→v` (`u ≠ v`) iff
+`(u·a + v·b) mod m < t`, minus the arcs `rm`; `[b repr n h]` = broom `0→h`, `h→v` for `v ∉ {0,h}`.
+Expanded to a `GDesc` (rows listed descending, so that `insertAsc` is constant time). -/
+def compact? : V → Option GDesc
+  | .l [.a "k", .a repr, n, a, b, m, t, rm] => do
+    let n ← V.nat? n; let a ← V.nat? a; let b ← V.nat? b; let m ← V.nat? m; let t ← V.nat? t
+    let rm ← V.listOf? (V.pair? V.nat? V.nat?) rm
+    if m == 0 || n > 4096 then none else
+    let vs := (List.range n).reverse
+    let arcs := (List.range n).flatMap (fun u =>
+      (vs.filter (fun v => u != v && (u * a + v * b) % m < t && !rm.contains (u, v))).map (fun v => (u, v)))
+    pure ⟨repr, List.range n, n, arcs, arcs.map (fun x => (x.1, x.2, 1))⟩
+  | .l [.a "b", .a repr, n, h] => do
+    let n ← V.nat? n; let h ← V.nat? h
+    if h ≥ n || n > 200000 then none else
+    let arcs := ((List.range n).reverse.filter (fun v => v != 0 && v != h)).map (fun v => (h, v))
+    let arcs := if h != 0 then (0, h) :: arcs else arcs
+    pure ⟨repr, List.range n, n, arcs, arcs.map (fun x => (x.1, x.2, 1))⟩
+  | _ => none
+
+/-- `dfs_repoll`: the three poll sequences against `pollTrace` (correspondence only). -/
+def runRepoll (d : GDesc) (S : List Nat) (fam : String) (observed : List V) : Option Verdict := do
+  let g := d.graph
+  let fF := fuelFixed g S
+  let show1 {α : Type} (f : Nat × α → V) (t : List (Option (Nat × α))) : V :=
+    .l ((trimNones t).map (fun o => match o with | none => V.a "none" | some x => f x))
+  let t1 := pollTrace g childU fF (new g S ())
+  let model : List V :=
+    [ show1 (fun x => V.ofNat x.1) t1,
+      show1 (fun x => .l [V.ofNat x.1, V.ofNat x.2]) (pollTrace g childD fF (new g S 0)),
+      show1 (fun x => .l [V.ofOptNat x.2, V.ofNat x.1]) (pollTrace g childP fF (new g S none)) ]
+  let applicable := S.all (· < g.n) && S.eraseDups.length == S.length && d.arcs.all (fun a => a.1 < g.n && a.2 < g.n)
+  if !applicable then none else
+  let nones := (trimNones t1).filter Option.isNone |>.length
+  let tags := [ "repr-" ++ d.repr, sizeTag g.n, "fam-" ++ (fam.splitOn ":").headD "none",
+                if nones == 0 then "repoll-no-none" else "repoll-through-none" ]
+  pure (classify observed model none (t1.length ≥ 2) tags)
+
+def hRepoll : Handler := fun _ args obs => do
   let (desc, src, fam) ← match args with
     | [desc, src] => some (desc, src, "none")
     | [desc, src, .a fam] => some (desc, src, fam)
     | _ => none
-  let d ← GDesc.parse desc
+  let d ← (compact? desc).orElse (fun _ => GDesc.parse desc)
+  let S ← V.listOf? V.nat? src
+  if d.repr == "am" && d.verts != List.range d.order then none
+  else if d.order == 0 || d.order > 4096 || d.arcs.any (fun a => a.1 == a.2) then none
+  else runRepoll d S fam obs
+
+def handler (kind : Kind) : Handler := fun _ args obs => do
+  let (desc, src, fam) ← match args with
+    | [desc, src] => some (desc, src, "none")
+    | [desc, src, .a fam] => some (desc, src, fam)
+    | [desc, src, .a fam, .a shape] =>
+      if ["vec", "filter", "flatten", "takewhile", "mapwhile"].contains shape then some (desc, src, fam ++ ":" ++ shape)
+      else none
+    | _ => none
+  let d ← (compact? desc).orElse (fun _ => GDesc.parse desc)
   let S ← V.listOf? V.nat? src
   -- outside the protocol's domain (the harness cannot even build these: graaf panics on `empty(0)`
   -- and on self-loops; non-contiguous `am` is not C06's vertex set): BADLINE, never a verdict
   if d.repr == "am" && d.verts != List.range d.order then none
   else if d.order == 0 || d.arcs.any (fun a => a.1 == a.2) then none
+  else if d.order > 4096 then runLight kind d S fam obs
   else run kind d S fam obs
 
 def handlers : List (String × Handler) :=
-  [("dfs_iter", handler .iter), ("dfs_dist", handler .dist), ("dfs_pred", handler .pred)]
+  [("dfs_iter", handler .iter), ("dfs_dist", handler .dist), ("dfs_pred", handler .pred),
+   ("dfs_repoll", hRepoll)]
 
 end GraafVerif.Driver.H06
